@@ -39,8 +39,9 @@ inductive ReqEv where
   | sendFail (t : Nat)             -- the awaited send failed / timed out / the future was dropped
   | recvBegin (t : Nat)            -- state check of `recv`
   | recvGot (t : Nat)              -- a reply was dequeued by this task: commit
-  | recvFail (t : Nat)             -- the receive ends without a message: timeout, error, dropped, or woken
-                                   -- late through the reply notifier
+  | recvFail (t : Nat)             -- the receive RETURNS without a message: timeout, error, or woken late
+                                   -- through the reply notifier
+  | recvDropped (t : Nat)          -- the receive future is dropped while waiting: nothing runs, nothing changes
   | peerReplies                    -- the peer answers one outstanding request
   | peerDetached                   -- the peer the REQ is waiting for goes away
 deriving DecidableEq, Repr
@@ -109,6 +110,10 @@ def ReqSys.step (s : ReqSys) : ReqEv → ReqSys
         else s.setPc t .idle
       | _ => s.setPc t .idle
     | _ => s
+  | .recvDropped t =>
+    match s.pc t with
+    | .recvWaiting _ => s.setPc t .idle
+    | _ => s
   | .peerReplies =>
     if s.atPeer == 0 then s else { s with atPeer := s.atPeer - 1, replies := s.replies + 1 }
   | .peerDetached =>
@@ -159,7 +164,9 @@ deriving DecidableEq, Repr
 
 inductive RepEv where
   | recvBegin (t : Nat)
-  | recvGot (t : Nat)              -- this task dequeued the oldest pending request: commit its source as reply address
+  | recvGot (t : Nat) (i : Nat)    -- this task dequeued a pending request (the `i`-th queued one: the ready-pipe
+                                   -- queue serves the peers' pipes round-robin, not in arrival order): commit its
+                                   -- source as reply address
   | recvGiveUp (t : Nat)           -- timeout / error / dropped
   | sendReply (t : Nat)            -- `send_multipart`: takes the stored request atomically
   | peerRequests (peer : Nat)      -- a request from `peer` is queued
@@ -193,12 +200,12 @@ def RepSys.step (s : RepSys) : RepEv → RepSys
     else if s.st == .readyToReceive then
       (if s.claim then { s with st := .receiving } else s).setPc t .recvInFlight
     else { s with rejected := s.rejected + 1 }
-  | .recvGot t =>
+  | .recvGot t i =>
     if s.pc t != .recvInFlight then s
-    else match s.pending with
-      | [] => s
-      | src :: rest =>
-        ({ s with pending := rest, st := .receivedRequest src, log := s.log ++ [.recv src] } : RepSys).setPc t .idle
+    else match s.pending[i]? with
+      | none => s
+      | some src =>
+        ({ s with pending := s.pending.eraseIdx i, st := .receivedRequest src, log := s.log ++ [.recv src] } : RepSys).setPc t .idle
   | .recvGiveUp t =>
     if s.pc t != .recvInFlight then s
     else ({ s with st := if s.claim && s.st == .receiving then .readyToReceive else s.st } : RepSys).setPc t .idle
